@@ -1,7 +1,7 @@
 #!/usr/bin/env python3
 """Mutation campaign: how sensitive are the registered quick checks to small source changes?
 
-  tools/mutate.py plan  <n> <seed> <out.jsonl>        sample n mutation sites from /repo/src (non-test code)
+  tools/mutate.py plan  <n> <seed> <out.jsonl> [dirs]  sample n mutation sites from /repo/src (non-test code; dirs e.g. methods,core)
   tools/mutate.py lanes <k>                           create k scratch lanes under /tmp/mt (yata worktree + harness copy)
   tools/mutate.py run   <plan.jsonl> <k> <results.jsonl>   run the plan on k lanes in parallel
   tools/mutate.py clean                               remove the lanes (worktrees and build output)
@@ -72,11 +72,13 @@ def code_lines(path):
     return out
 
 
-def plan(n, seed, out):
+def plan(n, seed, out, only=None):
     rnd = random.Random(seed)
     files = sorted(glob.glob("/repo/src/methods/*.rs") + glob.glob("/repo/src/indicators/*.rs") + glob.glob("/repo/src/core/*.rs") + glob.glob("/repo/src/core/indicator/*.rs") + glob.glob("/repo/src/helpers/*.rs"))
     # helpers/mod.rs holds the test helpers (assert_eq_float, RandomCandles): not product code
     files = [f for f in files if not f.endswith("/mod.rs")]
+    if only:
+        files = [f for f in files if any(("/src/" + o + "/") in f for o in only.split(","))]
     sites = []
     for f in files:
         for (i, code) in code_lines(f):
@@ -89,7 +91,7 @@ def plan(n, seed, out):
     picked = []
     for s in sites:
         k = (s["file"], s["op"])
-        if seen.get(k, 0) >= 2:
+        if seen.get(k, 0) >= (3 if only else 2):
             continue
         seen[k] = seen.get(k, 0) + 1
         picked.append(s)
@@ -213,7 +215,7 @@ def clean():
 if __name__ == "__main__":
     a = sys.argv[1:]
     if a[0] == "plan":
-        plan(int(a[1]), int(a[2]), a[3])
+        plan(int(a[1]), int(a[2]), a[3], a[4] if len(a) > 4 else None)
     elif a[0] == "lanes":
         lanes(int(a[1]))
     elif a[0] == "run":
